@@ -68,7 +68,20 @@ BuildTags(ev) ==
                               ELSE {}
                             : j \in DOMAIN ld.load.units[i].tables } : i \in DOMAIN ld.load.units }
 
+\* L2: what the generated server function answered for (locale, translation unit), decoded as the client decodes it
+ServerFnTags(ev) ==
+    LET ld == LoadOf(ev.case) IN
+    IF ev.outcome # "Ok" THEN {"serverfn-outcome:" \o ev.outcome}
+    ELSE IF ld.ev # "Load" \/ ld.load.outcome # "Ok" THEN {"load-outcome"}
+    ELSE LET U == { i \in DOMAIN ld.load.units : ld.load.units[i].ns = ev.unit } IN
+         IF U = {} THEN {"harness-unknown-unit"}
+         ELSE LET u == ld.load.units[CHOOSE i \in U : TRUE]
+                  T == { j \in DOMAIN u.tables : u.tables[j].locale = ev.locale } IN
+              IF T = {} THEN {"harness-unknown-locale"}
+              ELSE IF ev.strings = u.tables[CHOOSE j \in T : TRUE].strings THEN {} ELSE {"served-table-differs:" \o ev.unit \o ":" \o ev.locale}
+
 Tags(ev) == IF ev.ev = "Build" THEN BuildTags(ev)
+            ELSE IF ev.ev = "ServerFn" THEN ServerFnTags(ev)
             ELSE IF ev.ev = "Crash" THEN {"crash:" \o ev.outcome}
             ELSE {}
 
